@@ -16,6 +16,7 @@ import Lessm.Model.AtRule
 import Lessm.Model.Str
 import Lessm.Model.Print
 import Lessm.Model.Lex
+import Lessm.Spec.FixSpec
 import Lessm.Model.LR
 import Lessm.Gen.Grammar
 import Lessm.Gen.Lalr
@@ -445,6 +446,22 @@ def lrRecognise (ws : List String) : String :=
       | .stuck => "stuck"
     r ++ " | " ++ bal Gen.braceTw ++ bal Gen.parenTw ++ bal Gen.istrTw ++ bal Gen.estrTw
 
+open Lean in
+def fixRun (payload : String) : String :=
+  match Json.parse payload with
+  | .error e => "bad-json " ++ e
+  | .ok j =>
+      match j.getArr? with
+      | .error e => "bad-json " ++ e
+      | .ok arr =>
+          match arr.toList.mapM itemOfJson with
+          | .error e => "bad-item " ++ e
+          | .ok items =>
+              let out := Nest.compileSheet items
+              let again := Nest.compileSheet (Nest.embed out)
+              (Json.mkObj [("canon", Json.bool (Nest.CanonOut out)), ("fixed", Json.bool (again == out)),
+                           ("rules", Json.num out.length)]).compress
+
 def handle (op : String) (payload : String) : String :=
   let args := (payload.splitOn " ").filter (· ≠ "")
   match op, args with
@@ -473,6 +490,7 @@ def handle (op : String) (payload : String) : String :=
     -- payloads whose fields may contain spaces are separated by U+001F
     match op, payload.splitOn "\x1f" with
     | "c02.flat", [j] => nestFlat j
+    | "c10.fix", [j] => fixRun j
     | "c03.run", [j] => VarsIO.run j
     | "c07.run", [j] => MediaIO.run j
     | "c05.run", [j] => MixinIO.run j
